@@ -33,6 +33,8 @@ let kind_ctx (kind : string) =
   | "w" | "y" | "z" -> (0, 0, Some (ls @ [label "w"; ex]), Some [label "*"; label "w"; ex], true)
   | "b" -> (0, 0, Some (ls @ [label "big"; ex]), Some [label "*"; label "big"; ex], true)
   | "c" -> (0, 0, Some (ls @ [label "cw"; ex]), Some [label "*"; label "cw"; ex], true)
+  | "g" -> (0, 3, Some (ls @ [label "cn"; ex]), Some [label "*"; label "cn"; ex], true)
+  | "h" -> (0, 2, Some (ls @ [label "cl"; ex]), Some [label "*"; label "cl"; ex], true)
   | "x" -> (0, 3, Some (ls @ [label "nx"; ex]), None, true)
   | "r" -> (0, 5, Some (ls @ [label "other"]), None, true)
   | "f" -> (0, 1, None, None, true)
